@@ -1647,6 +1647,8 @@ loop:
 			c.state = connStateClosed
 
 			ids, ctxs := c.takeReqsAbove(ga.stream)
+			verifTick(verifTickCliGoAwaySweep)
+
 			for i, ctx := range ctxs {
 				atomic.AddInt32(&c.openStreams, -1)
 				c.deletePending(ids[i])
